@@ -109,9 +109,34 @@ type MSpec struct {
 	Doc    []string
 	Purge  bool   // //gopherjs:purge on this spec
 	Call   bool   // single-call multi-value spec: var a, b = mk2("marker")
-	Marker string // marker of a Call spec
-	Type   string // declared type of a multi-name spec ("" = none)
+	NoVal  bool   // names sharing a type, no values: var a, b struct{ F int `marker` }
+	Marker string // marker of a Call or NoVal spec
+	Type   string // declared type of a multi-name or Call spec ("" = none)
 	Sides  []*ESide
+}
+
+// single reports whether the names of the spec share one thing (a call or just a type): the
+// single-value context of build.augmentOriginalFile, number of names != number of values.
+func (sp *MSpec) single() bool { return sp.Call || sp.NoVal }
+
+// allBlank reports whether the spec declares nothing but blank identifiers.
+func (sp *MSpec) allBlank() bool {
+	for _, s := range sp.Sides {
+		if s.Ent.Name != "_" {
+			return false
+		}
+	}
+	return true
+}
+
+// anyBlank reports whether one of the names of the spec is the blank identifier.
+func (sp *MSpec) anyBlank() bool {
+	for _, s := range sp.Sides {
+		if s.Ent.Name == "_" {
+			return true
+		}
+	}
+	return false
 }
 
 type Sig struct {
@@ -153,7 +178,8 @@ func (r *Recv) text(typ string) string {
 // Use is one reference to an imported package from an entity.
 type Use struct {
 	Imp   *MImport
-	Where string // body | sig | field | value
+	Where string // body | sig | field | iface | value | const
+	Form  int    // selects the syntactic shape of the reference (uses.go)
 }
 
 // ESide is one side (original or overlay) of an entity.
@@ -179,7 +205,7 @@ type ESide struct {
 	NoValue bool // var without initial value (marker lives in the type)
 	Embed   bool // //go:embed directive (var string, no value)
 	Uses    []Use
-	Shadow  []*MImport // locals named like an import (must not count as a use)
+	Shadow  []Shadow // locals named like an import (must not count as a use)
 
 	file *MFile
 	decl *MDecl
@@ -204,44 +230,6 @@ func (e *Ent) key() string {
 
 // ---------------------------------------------------------------- rendering of one entity side
 
-func useText(u Use) string {
-	q, p := u.Imp.qual(), u.Imp.prefix()
-	unsafe := u.Imp.Path == "unsafe"
-	embed := u.Imp.Path == "embed"
-	switch u.Where {
-	case "body":
-		if unsafe {
-			return "_ = " + q + "Sizeof(0)"
-		}
-		return "_ = " + q + p + "C"
-	case "sig", "field":
-		if unsafe {
-			return q + "Pointer"
-		}
-		if embed {
-			return q + "FS"
-		}
-		return q + p + "T"
-	case "value": // string typed expression appended to a var initializer
-		if unsafe {
-			return "[" + q + "Sizeof(0)*0:]"
-		}
-		return " + " + q + p + "S()"
-	case "const":
-		return " + " + q + p + "K"
-	}
-	panic("bad use " + u.Where)
-}
-
-func shadowStmts(i *MImport) []string {
-	l := i.local()
-	field := i.prefix() + "C"
-	if i.Path == "unsafe" {
-		field = "Pointer"
-	}
-	return []string{fmt.Sprintf("%s := struct{ %s int }{}", l, field), fmt.Sprintf("_ = %s.%s", l, field)}
-}
-
 func docLines(b *strings.Builder, indent string, lines []string) {
 	for _, l := range lines {
 		b.WriteString(indent + l + "\n")
@@ -259,7 +247,7 @@ func funcText(doc []string, recvTyp string, recv *Recv, name string, sig Sig, si
 	}
 	var extra []string
 	for i, u := range sigUses {
-		extra = append(extra, fmt.Sprintf("u%d %s", i, useText(u)))
+		extra = append(extra, useText(u, fmt.Sprint(i)))
 	}
 	b.WriteString(name + sig.text(extra))
 	if body == nil || body.NoBody {
@@ -267,9 +255,9 @@ func funcText(doc []string, recvTyp string, recv *Recv, name string, sig Sig, si
 		return b.String()
 	}
 	stmts := []string{fmt.Sprintf("_ = mk(%q)", body.Marker)}
-	for _, u := range body.Uses {
+	for i, u := range body.Uses {
 		if u.Where == "body" {
-			stmts = append(stmts, useText(u))
+			stmts = append(stmts, useText(u, fmt.Sprintf("b%d", i)))
 		}
 	}
 	for _, s := range body.Shadow {
@@ -323,9 +311,21 @@ func (es *ESide) typeSpecText() string {
 	case "int":
 		return name + " int"
 	case "iface":
-		return fmt.Sprintf("%s interface{ M%s() }", name, es.Marker)
+		elems := []string{"M" + es.Marker + "()"}
+		for i, u := range es.Uses {
+			if u.Where == "iface" {
+				elems = append(elems, useText(u, fmt.Sprint(i)))
+			}
+		}
+		return fmt.Sprintf("%s interface{ %s }", name, strings.Join(elems, "; "))
 	case "alias":
-		return fmt.Sprintf("%s = struct{ F int %s }", name, tag)
+		fields := []string{"F int " + tag}
+		for i, u := range es.Uses {
+			if u.Where == "field" {
+				fields = append(fields, useText(u, fmt.Sprint(i)))
+			}
+		}
+		return fmt.Sprintf("%s = struct{ %s }", name, strings.Join(fields, "; "))
 	}
 	tp := ""
 	fields := []string{"F int " + tag}
@@ -340,7 +340,7 @@ func (es *ESide) typeSpecText() string {
 	}
 	for i, u := range es.Uses {
 		if u.Where == "field" {
-			fields = append(fields, fmt.Sprintf("u%d %s", i, useText(u)))
+			fields = append(fields, useText(u, fmt.Sprint(i)))
 		}
 	}
 	return fmt.Sprintf("%s%s struct {\n\t\t%s\n\t}", name, tp, strings.Join(fields, "\n\t\t"))
@@ -356,7 +356,7 @@ func (es *ESide) valueExpr() string {
 	}
 	for _, u := range es.Uses {
 		if u.Where == "value" || u.Where == "const" {
-			v += useText(u)
+			v += useText(u, "")
 		}
 	}
 	return v
@@ -367,7 +367,10 @@ func (es *ESide) noValueType() string { return "struct{ F int `" + es.Marker + "
 // specText renders a value spec (without keyword). names: "" entries are rendered as `_`
 // (only used by the expected rendering of Call specs), skip: sides left out entirely.
 func specText(tok string, sp *MSpec, keep func(*ESide) bool, iotaFirst bool, iotaRepeat bool, iotaType ...string) string {
-	if sp.Call {
+	if sp.single() {
+		// single-value context: the names that are gone become placeholders, the specification
+		// stays as long as one of its names does (keep reports false for the placeholders of a
+		// specification that is gone, see aliveFn)
 		var names []string
 		any := false
 		arg := fmt.Sprintf("%q", sp.Marker)
@@ -379,15 +382,22 @@ func specText(tok string, sp *MSpec, keep func(*ESide) bool, iotaFirst bool, iot
 				names = append(names, "_")
 			}
 			for _, u := range s.Uses {
-				if u.Where == "value" && !strings.HasPrefix(useText(u), "[") {
-					arg += useText(u)
+				if u.Where == "value" && !strings.HasPrefix(useText(u, ""), "[") {
+					arg += useText(u, "")
 				}
 			}
 		}
 		if !any {
 			return ""
 		}
-		return fmt.Sprintf("%s = mk%d(%s)", strings.Join(names, ", "), len(sp.Sides), arg)
+		if sp.NoVal {
+			return strings.Join(names, ", ") + " struct{ F int `" + sp.Marker + "` }"
+		}
+		typ := ""
+		if sp.Type != "" {
+			typ = " " + sp.Type
+		}
+		return fmt.Sprintf("%s%s = mk%d(%s)", strings.Join(names, ", "), typ, len(sp.Sides), arg)
 	}
 	var names, vals []string
 	for _, s := range sp.Sides {
@@ -527,6 +537,8 @@ func mk(s string) string { return s }
 func mk2(s string) (string, string) { return s, s }
 
 func mk3(s string) (string, string, string) { return s, s, s }
+
+func zero[T any]() (z T) { return }
 `
 
 // sides iterates over all entity sides of a file in source order.
@@ -573,6 +585,50 @@ type ExpFile struct {
 	Touched        bool
 	Transplant     bool // received a signature from another file (its positions are foreign)
 	Survivors      int
+	NestedOnly     int // imports of a pruned file that are referenced only below another selector
+	BlankSingle    int // all-blank single-value specs of an original file next to overrides
+}
+
+// aliveFn tells which entity sides of the files of one side are part of the merged package.
+// A blank name of a single-value spec (`var _, a = f()`, `var _, a T`) is a placeholder: it stays
+// while the spec stays, and the spec stays while one of its names is left - or if it never had
+// any (`var _, _ = f()` is evaluated for its effect and nothing can override it).
+func aliveFn(side int, fate map[*ESide]string) func(*ESide) bool {
+	base := func(s *ESide) bool {
+		if side == sideOver {
+			return !s.purged() && !((s.Kind == "func" || s.Kind == "method") && s.Ent.Dir == dirSig)
+		}
+		return fate[s] != "drop"
+	}
+	return func(s *ESide) bool {
+		if !base(s) {
+			return false
+		}
+		if s.Ent.Name == "_" && s.decl != nil && s.decl.Iota {
+			// placeholder of a positional constant group: same rule, for the whole group
+			named := false
+			for _, sp := range s.decl.Specs {
+				for _, x := range sp.Sides {
+					if x.Ent.Name != "_" {
+						named = true
+						if base(x) {
+							return true
+						}
+					}
+				}
+			}
+			return !named
+		}
+		if s.Ent.Name == "_" && s.spec != nil && s.spec.single() && !s.spec.allBlank() {
+			for _, x := range s.spec.Sides {
+				if x.Ent.Name != "_" && base(x) {
+					return true
+				}
+			}
+			return false
+		}
+		return true
+	}
 }
 
 // fate of an original side: "", "drop", "keep" (renamed), "sig" (signature replaced)
@@ -636,20 +692,18 @@ func (m *Model) expect() []ExpFile {
 				out = append(out, ef)
 				continue
 			}
-			alive := func(s *ESide) bool {
-				if side == sideOver {
-					return !s.purged() && !((s.Kind == "func" || s.Kind == "method") && s.Ent.Dir == dirSig)
-				}
-				return fate[s] != "drop"
-			}
+			alive := aliveFn(side, fate)
 			var body strings.Builder
 			usedPath := map[string]bool{} // by the transplanted signature of an override-signature
 			hasLinkname, hasEmbed := false, false
 			for _, d := range f.Decls {
 				for i, sp := range d.Specs {
-					if sp.Call {
+					if sp.single() {
 						if t := specText(d.Tok, sp, alive, false, false); t != "" {
 							body.WriteString("var " + t + "\n\n")
+						}
+						if side == sideOrig && sp.allBlank() && len(overKeys) > 0 {
+							ef.BlankSingle++
 						}
 					}
 					for _, s := range sp.Sides {
@@ -679,7 +733,7 @@ func (m *Model) expect() []ExpFile {
 							body.WriteString(funcText(s.funcDocExpected(), s.Ent.Recv, recv, name, sig, sigUses, s) + "\n")
 						case s.Kind == "type":
 							body.WriteString("type " + s.typeSpecText() + "\n\n")
-						case sp.Call:
+						case sp.single():
 							// rendered with its spec above
 						case d.Iota:
 							// rendered with its group below
@@ -730,6 +784,7 @@ func (m *Model) expect() []ExpFile {
 			// which imports are still referenced: a use by a signature that was replaced does
 			// not count; the call of a single-call spec stays while any of its names stays
 			used := map[*MImport]bool{}
+			direct := map[*MImport]bool{} // referenced at least once by a plain qualified identifier
 			for _, s := range f.sides() {
 				live := alive(s)
 				if s.spec.Call {
@@ -745,6 +800,16 @@ func (m *Model) expect() []ExpFile {
 						continue
 					}
 					used[u.Imp] = true
+					if !u.nested() {
+						direct[u.Imp] = true
+					}
+				}
+			}
+			if ef.Touched && ef.Survivors > 0 {
+				for im := range used {
+					if !direct[im] && im.Form != "dot" {
+						ef.NestedOnly++
+					}
 				}
 			}
 			var imps []string
